@@ -24,14 +24,19 @@ from harness.props.c08 import gen_tree, fresh_names
 
 # ------------------------------------------------------------------ generators
 def gen_world(rng, max_leaves=7):
+    big = rng.random() < 0.3
+    if big:
+        max_leaves = 10
     data = gen_tree(rng, max_levels=4, max_leaves=max_leaves, min_leaves=1)
     for k in data[data['hierarchy'][-1]]:
         data[data['hierarchy'][-1]][k] = []
     leaf_level = data['hierarchy'][-1]
     leaves = sorted(data[leaf_level])
-    n_genes = rng.randrange(2, 13)
+    n_genes = rng.randrange(17, 41) if big else rng.randrange(2, 17)
     genes = fresh_names(rng, n_genes, 'g')
     density = rng.choice(['dense', 'dense', 'sparse', 'mixed', 'mixed', 'mixed'])
+    if rng.random() < 0.06:
+        density = rng.choice(['empty', 'no-up', 'no-down'])     # no marker at all / one direction absent everywhere
     table = {}
     profiles = {}
     for pr in itertools.combinations(leaves, 2):
@@ -61,6 +66,14 @@ def gen_world(rng, max_leaves=7):
         elif prof == 'few':
             for g in rng.sample(range(n_genes), min(n_genes, rng.randrange(1, 3))):
                 (up if rng.random() < 0.5 else down).add(g)
+        if density == 'empty':
+            up, down = set(), set()
+        elif density in ('no-up', 'no-down'):
+            up, down = set(), set()
+            for g in range(n_genes):
+                if rng.random() < 0.3:
+                    (down if density == 'no-up' else up).add(g)
+        assert not (up & down)                       # hypothesis no_gene_both_ways, by construction
         table[pr] = (sorted(down), sorted(up))
         profiles[pr] = prof
     p_query = rng.choice([1.0, 1.0, 0.8, 0.6, 0.4])
@@ -71,7 +84,7 @@ def gen_world(rng, max_leaves=7):
         query = []                                   # no overlap at all: the code must refuse
     query += fresh_names(rng, rng.randrange(0, 3), 'q')
     rng.shuffle(query)
-    n_per = rng.choice([0, 1, 1, 2, 2, 3, 4, 6])
+    n_per = rng.choice([0, 1, 1, 1, 2, 2, 2, 3, 3, 4, 6] + ([8, 12] if big else []))
     parents = [None]
     for lv in data['hierarchy'][:-1]:
         parents += [(lv, nd) for nd in data[lv]]
@@ -80,7 +93,7 @@ def gen_world(rng, max_leaves=7):
         override = {p: rng.choice([0, 1, 2, 3, 5]) for p in parents if rng.random() < 0.5}
     return {'tree': data, 'genes': genes, 'table': {f'{a}|{b}': v for (a, b), v in table.items()},
             'query': query, 'n_per_utility': n_per, 'override': override,
-            'small_dtype': rng.random() < 0.5, 'density': density}
+            'small_dtype': rng.random() < 0.5, 'density': density, 'big': big}
 
 
 def table_of(world):
@@ -255,7 +268,9 @@ def census(world, parent, selected, n_per):
 # ------------------------------------------------------------------ function level
 def run_function_case(world, tree, ref, parent, behemoth):
     from cell_type_mapper.marker_selection.marker_array import MarkerGeneArray
-    from cell_type_mapper.marker_selection.selection import select_marker_genes_v2, _get_taxonomy_idx
+    from cell_type_mapper.marker_selection.selection import (select_marker_genes_v2, _get_taxonomy_idx,
+                                                              _run_selection)
+    from cell_type_mapper.marker_selection.utils import create_utility_array
     obs = {}
     n_per = world['n_per_utility']
     if world['override'] and parent in world['override']:
@@ -275,6 +290,17 @@ def run_function_case(world, tree, ref, parent, behemoth):
             res = select_marker_genes_v2(marker_gene_array=arr, query_gene_names=list(world['query']),
                                          taxonomy_tree=tree, parent_node=parent, n_per_utility=n_per,
                                          summary_log=log)
+            # the inner function on its own (fresh array, utility and census computed as the wrapper does)
+            arr2 = MarkerGeneArray.from_cache_path(cache_path=ref, query_gene_names=list(world['query']))
+            if not behemoth:
+                arr2 = arr2.downsample_pairs_to_other(only_keep_pairs=tree.leaves_to_compare(parent))
+            ua, mc = create_utility_array(marker_gene_array=arr2, gb_size=10, taxonomy_mask=idx)
+            obs['census'] = [[int(a), int(b)] for a, b in mc]
+            obs['utility0'] = [int(u) for u in ua]
+            res2, _ = _run_selection(marker_gene_array=arr2, utility_array=ua, marker_census=mc,
+                                     taxonomy_idx_array=idx, n_per_utility=n_per, parent_node=parent)
+            obs['selected_inner'] = [str(g) for g in res2]
+            obs['utility_final'] = [int(u) for u in ua]          # _run_selection updates its argument in place
         obs['ok'] = True
         obs['selected'] = [str(g) for g in res]
         st = list(log.values())[0]
@@ -331,6 +357,13 @@ def check_function_case(ctx, world, rn, parent, behemoth, obs, thin, rep, spec, 
         md = {f'lt_{t}': {'up': sum(1 for c in counts if c[1] < t), 'down': sum(1 for c in counts if c[0] < t)} for t in ths}
         if md != st.get('marker_distribution'):
             corr.append(('Selection.state', f'marker_distribution: impl {st.get("marker_distribution")} model {md}'))
+        if [list(c) for c in cen] != obs['census']:
+            corr.append(('Selection.census', f'marker_census: impl {obs["census"]} model {cen}'))
+        if obs['selected_inner'] == obs['selected'] and list(util) != obs['utility_final']:
+            corr.append(('Selection.state', f'final utility_array: impl {obs["utility_final"]} model {list(util)}'))
+    if obs['selected_inner'] != obs['selected']:
+        prop.append(('inner-and-wrapper-differ', f'_run_selection returned {obs["selected_inner"]} but '
+                                                 f'select_marker_genes_v2 {obs["selected"]} on the same input'))
     if greedy[0] != 0:
         corr.append(('Selection.greedy', 'the fuelled greedy loop of the model ran out of fuel'))
     # property
@@ -362,17 +395,29 @@ def function_level(ctx, worlds):
             pd, idx = th[1][1], th[1][2]
             name_idx = {g: i for i, g in enumerate(o['thin_genes'])}
             sel = [name_idx.get(g, 10 ** 6) for g in o['selected']]
+            # canaries (the tie must have teeth): the list without its last gene and the list with one
+            # gene too many are NOT runs of the model
+            extra = sel + [sel[-1] if sel else 0]
             second += [(1201, [ng, pd, idx, o['n_per'], sel]), (1202, [ng, pd, idx, o['n_per'], sel]),
-                       (1204, [ng, pd, idx, o['n_per']])]
+                       (1204, [ng, pd, idx, o['n_per']]),
+                       (1201, [ng, pd, idx, o['n_per'], sel[:-1] if sel else extra]),
+                       (1201, [ng, pd, idx, o['n_per'], extra])]
     r2 = ctx.model(second)
     j = 0
     for (w, rn, p, b, o), th in zip(recs, thin):
+        canary = []
         if o['ok'] and th[0] == 0:
             rep, spec, greedy = r2[j], r2[j + 1], r2[j + 2]
-            j += 3
+            canary = [r2[j + 3], r2[j + 4]]
+            j += 5
         else:
             rep, spec, greedy = None, None, None
         corr, prop, outcome = check_function_case(ctx, w, rn, p, b, o, th, rep, spec, greedy)
+        for c in canary:
+            ctx.dist('canary_mutant_rejected', c[0][0] != 0)
+            if c[0][0] == 0:
+                corr.append(('Selection.replay-canary', 'the model accepts a mutilated choice sequence (one gene dropped / added) '
+                                                        f'of {o["selected"]}'))
         n_pairs = len(o.get('thin_pairs', []))
         nd = o.get('stats', {}).get('n_desperate', 0)
         ng = len(o.get('selected', []))
@@ -382,16 +427,26 @@ def function_level(ctx, worlds):
         nontriv = o['ok'] and n_pairs >= 2 and ng >= 2 and ng > nd
         ctx.count(json.dumps([w['table'], w['query'], str(p), b, o.get('n_per')]), nontrivial=bool(nontriv))
         ctx.dist('function_outcome', outcome)
+        ctx.dist('function_table_density', w['density'] + ('/big' if w.get('big') else ''))
         ctx.dist('n_per_utility', o.get('n_per'))
         ctx.dist('pairs_of_parent', min(n_pairs, 10))
         ctx.dist('has_pair_short_of_target', short)
         ctx.dist('desperate_genes', min(nd, 5))
+        ctx.dist('genes_chosen_by_the_loop', min(max(ng - nd, 0), 12))
         if o['ok'] and not corr:
             ctx.traces_validated += 1
         if nontriv:
             ctx.sample({'parent': str(p), 'behemoth_order': b, 'n_per_utility': o['n_per'], 'by_pair_tables': o['thin_pairs'],
                         'thinned_genes': o['thin_genes'], 'selected_in_order': o['selected'],
                         'stats': {k: o['stats'][k] for k in ('filled', 'unfilled', 'n_desperate')}}, limit=3)
+        if not hasattr(ctx, 'c12_observed'):
+            ctx.c12_observed = []                          # shown by --replay (implementation | model | predicate)
+        if len(ctx.c12_observed) < 12:
+            ctx.c12_observed.append({
+                'parent': str(p), 'global_pair_order': b, 'n_per_utility': o.get('n_per'),
+                'implementation': o.get('selected', o.get('msg')),
+                'model_replay': ('accepted' if rep and rep[0][0] == 0 else rep[0] if rep else None),
+                'spec_c12': (spec[1][0] if spec and spec[0] == 0 else None)})
         report(ctx, {'kind': 'function', 'world': w, 'parent': p, 'behemoth': b, 'observed': o,
                      'model': {'thin': th, 'replay': rep, 'spec': spec}}, corr, prop)
 
@@ -477,6 +532,7 @@ def stage_level(ctx, worlds, n_configs):
         idx = {g: i for i, g in enumerate(names)}
         sel = [idx.get(g, 10 ** 6) for g in sel_names]
         second.append((1201, [len(names), th[1][1], th[1][2], n_per, sel]))
+        second.append((1202, [len(names), th[1][1], th[1][2], n_per, sel]))
         where2.append((wi, ti, p, n_per))
     r2 = iter(ctx.model(second))
     problems = {}
@@ -491,6 +547,12 @@ def stage_level(ctx, worlds, n_configs):
                 pr['prop'].append(('parent-missing-from-table', f'{key} not in the table of {tables[ti]["config"]}'))
             continue
         rep = next(r2)
+        spec = next(r2)
+        if spec[0] != 0 or not spec[1][1]:
+            pr['corr'].append(('Selection.both_ways_free', 'a generated table lists a gene as up- and down-marker of one pair'))
+        elif not spec[1][0]:
+            pr['prop'].append(('spec_c12', f'{tables[ti]["config"]} parent {key}: extracted spec_c12 is false on '
+                                           f'{tables[ti]["table"][key]}'))
         if rep[0][0] != 0:
             pr['corr'].append(('Selection.replay', f'{tables[ti]["config"]} parent {key}: list {tables[ti]["table"][key]} '
                                                    f'is not a run of the model: {rep[0]}'))
@@ -537,6 +599,13 @@ def stage_level(ctx, worlds, n_configs):
         ctx.dist('parents_with_pairs', n_branching)
         ctx.dist('table_density', world['density'])
         ctx.dist('override', world['override'] is not None)
+        if not hasattr(ctx, 'c12_observed'):
+            ctx.c12_observed = []
+        for t in tables:
+            if len(ctx.c12_observed) < 12:
+                ctx.c12_observed.append({'config': t['config'], 'implementation': t.get('table', t.get('msg')),
+                                         'model_and_predicate': 'agree' if not (pr['corr'] or pr['prop']) else
+                                         {'correspondence': pr['corr'][:3], 'property': pr['prop'][:3]}})
         report(ctx, {'kind': 'stage', 'world': world, 'tables': tables}, pr['corr'], pr['prop'])
 
 
@@ -584,7 +653,7 @@ def cleanup(d):
 
 def run(ctx):
     ctx.rule = ('generated reference-marker files in the HDF5 layout of diff_exp/markers.py (trees <= 4 levels / <= 7 leaves, '
-                '<= 12 genes; per pair: none / dense / sparse / one-sided / few markers, up and down disjoint; small and int64 '
+                '<= 16 genes, 30% bigger: <= 10 leaves / 17..40 genes; per pair: none / dense / sparse / one-sided / few markers, up and down disjoint; small and int64 '
                 'dtypes), query = subset of the reference genes + foreign genes in shuffled order, n_per_utility 0..6, per-parent '
                 'overrides. function level: every parent with >= 1 pair, local and global (behemoth) pair order; stage level: '
                 'select_all_markers over workers x cut-offs + create_marker_gene_lookup_from_ref_list. non-trivial (function) = '
@@ -595,8 +664,12 @@ def run(ctx):
         'genes_at_a_time = 1 (the only value the property quantifies over)',
         'gene names are unique in the reference and in the query; the tree is a valid strict tree',
         'the tie order of np.argsort is not modelled: the chosen sequence is an input of the model',
+        'n_per_utility and its overrides are non-negative integers; one reference-marker file per call; '
+        'parent_list = all parents; drop_level = None',
+        'a table in which a gene marks one pair both ways is outside the quantifier (on it the code under-covers, as the '
+        'model predicts: Example ex_hypothesis_needed)',
     ]
-    nf = ctx.n(60, 1600)
+    nf = ctx.n(160, 2400)
     done = 0
     while done < nf:
         m = min(100, nf - done)
@@ -604,7 +677,7 @@ def run(ctx):
         function_level(ctx, worlds)
         cleanup(d)
         done += m
-    ns = ctx.n(20, 300)
+    ns = ctx.n(40, 300)
     done = 0
     while done < ns:
         m = min(50, ns - done)
@@ -616,10 +689,19 @@ def run(ctx):
 
 def replay(ctx, rec):
     import shutil
+    try:
+        return _replay(ctx, rec)
+    finally:
+        shutil.rmtree(ctx.scratch, ignore_errors=True)
+
+
+def _replay(ctx, rec):
+    import shutil
     world = rec.get('world')
     if world is None:
         print(json.dumps(rec, indent=1)[:4000])
         return 0
+    shown = json.dumps(world, default=str)[:3000]
     if world.get('override') is not None:
         world['override'] = {(None if k == 'None' else tuple(k)): v for k, v in world['override']}
     d = ctx.scratch / 'replay'
@@ -630,10 +712,11 @@ def replay(ctx, rec):
         stage_level(ctx, [(world, tree, ref)], n_configs=12)
     else:
         function_level(ctx, [(world, tree, ref)])
-    print('INPUT', json.dumps(rec.get('world'), default=str)[:3000])
+    print('INPUT', shown)
+    for o in getattr(ctx, 'c12_observed', [])[:12]:
+        print('OBSERVED', json.dumps(o, default=str)[:600])
     for what, p, no_input in ctx.violations[before:]:
         print('RESULT', what)
     if len(ctx.violations) == before and not ctx.known_hits:
         print('RESULT implementation, model and property agree on this input')
-    shutil.rmtree(ctx.scratch, ignore_errors=True)
     return 1 if len(ctx.violations) > before else 0
